@@ -432,6 +432,35 @@ def make_value_writer(kind, key="w"):
     return _cache[name]
 
 
+class VerifScaleInPlaceOperation(FloatOperation):
+    """Doubles the value INSIDE the data object it was given and returns that same object."""
+
+    def _process_logic(self, data):
+        data.data = data.data * 2.0
+        return data
+
+
+LONG_PREFIX = "p" * 230
+
+
+def make_long_rewriter(key="label"):
+    """Operation that rewrites context key `key` (a long string it receives) changing only its LAST character."""
+    name = "VerifLongRewriter_" + key
+    if name not in _cache:
+        def _impl(self, data, value):
+            new = value[:-1] + ("B" if value[-1:] != "B" else "C")
+            self._notify_context_update(key, new)
+            return FloatDataType(data.data)
+
+        def context_keys(cls):
+            return [key]
+        ns = {"_impl": _impl}
+        exec("def _process_logic(self, data, %s):\n    return _impl(self, data, %s)\n" % (key, key), ns)
+        _cache[name] = type(name, (FloatOperation,), {"_process_logic": ns["_process_logic"], "context_keys": classmethod(context_keys),
+                                                       "__doc__": "Rewrites a long string in the context, changing its last character."})
+    return _cache[name]
+
+
 class VerifMissingField(KeyError):
     """A user-defined lookup error raised without arguments."""
 
